@@ -127,9 +127,8 @@ class Objective:
             loss = 0.0
             for output_index in range(0, nb_sub_objectives):
                 outputs = model_outputs[output_index]
-                loss += self.funcs[output_index](
+                loss += multipliers[output_index] * self.funcs[output_index](
                     outputs, tf.cast(masks[output_index], outputs.dtype))
-                loss *= multipliers[output_index]
             return loss
 
         # the model outputs will be composed of the layers needed
